@@ -39,6 +39,7 @@ pub struct Features {
     pub empty_pred: bool,
     pub builtins: bool,
     pub time_op: bool,
+    pub arith: bool,
 }
 
 fn constant(rng: &mut Rng) -> Term {
@@ -78,7 +79,7 @@ fn pick_arg(rng: &mut Rng, scope: &mut Vec<String>, fresh_ok: bool) -> Term {
 
 fn gen_leaf(rng: &mut Rng, ctx: &Ctx, callable: &[Pred], scope: &mut Vec<String>, allow_cut: bool) -> GoalSpec {
     let f = &ctx.feats;
-    // weights: call, unify, cmp, print, nl, cut, fail, mem, count, append, print_list
+    // weights: call, unify, cmp, print, nl, cut, fail, mem, count, append, print_list, arithmetic
     let w = [
         if callable.is_empty() { 0 } else { 10 },
         2,
@@ -91,6 +92,7 @@ fn gen_leaf(rng: &mut Rng, ctx: &Ctx, callable: &[Pred], scope: &mut Vec<String>
         if f.builtins { 1 } else { 0 },
         if f.builtins { 1 } else { 0 },
         if f.builtins && f.print { 1 } else { 0 },
+        if f.arith { 3 } else { 0 },
     ];
     match rng.weighted(&w) {
         0 => {
@@ -155,10 +157,26 @@ fn gen_leaf(rng: &mut Rng, ctx: &Ctx, callable: &[Pred], scope: &mut Vec<String>
             let items = (0..n).map(|_| constant(rng)).collect();
             GoalSpec::BuiltIn("append".to_string(), vec![constant(rng), Term::List(items, None), fresh(scope)])
         }
-        _ => {
+        10 => {
             let n = rng.range(1, 3) as usize;
             let items = (0..n).map(|_| constant(rng)).collect();
             GoalSpec::BuiltIn("print_list".to_string(), vec![Term::List(items, None)])
+        }
+        _ => {
+            // $V = op(number, number) on constants only (the arithmetic functions panic on
+            // unbound or non-numeric operands); integers and floats, never a zero divisor
+            let num = |rng: &mut Rng| -> Term {
+                if rng.chance(1, 3) {
+                    Term::Float((*rng.pick(&["0.5", "1.5", "2.0", "2.5", "7.25"])).to_string())
+                } else {
+                    Term::Int(rng.range(1, 9) as i64)
+                }
+            };
+            let op = *rng.pick(&["add", "subtract", "multiply", "divide"]);
+            let a = num(rng);
+            let b = num(rng);
+            let target = if rng.chance(3, 4) { fresh(scope) } else { Term::Int(rng.range(1, 9) as i64) };
+            GoalSpec::Unify(target, Term::Func(op.to_string(), vec![a, b]))
         }
     }
 }
@@ -207,6 +225,7 @@ fn gen_features(family: &str, rng: &mut Rng) -> Features {
         empty_pred: rng.chance(1, 4),
         builtins: rng.chance(1, 3),
         time_op: rng.chance(1, 5),
+        arith: rng.chance(1, 4),
     };
     match family {
         "C05" => {
